@@ -51,4 +51,20 @@ pub mod vlib_server {
         ensures
             heap_view(h).len() == 0 ==> r is None,
             heap_view(h).len() > 0 ==> (r matches Some(x) && heap_view(h).contains(*x));
+
+    // Vec::retain: "Retains only the elements specified by the predicate ... removes all elements e for which f(&e)
+    // returns false. This method operates in place, visiting each element exactly once in the original order, and
+    // preserves the order of the retained elements." Transcribed weakly: the result is an order-preserving
+    // subsequence of the original (which elements survive is left open); the predicate may be called on every element.
+    pub open spec fn is_subsequence<T>(sub: Seq<T>, full: Seq<T>) -> bool {
+        exists|idx: Seq<int>| idx.len() == sub.len()
+            && (forall|i: int| 0 <= i < idx.len() ==> 0 <= #[trigger] idx[i] < full.len() && sub[i] == full[idx[i]])
+            && (forall|i: int, j: int| 0 <= i < j < idx.len() ==> idx[i] < idx[j])
+    }
+    pub assume_specification<T, A: std::alloc::Allocator, F: FnMut(&T) -> bool> [std::vec::Vec::<T, A>::retain] (v: &mut std::vec::Vec<T, A>, f: F)
+        requires
+            forall|i: int| 0 <= i < old(v)@.len() ==> #[trigger] f.requires((&old(v)@[i],)),
+        ensures
+            final(v)@.len() <= old(v)@.len(),
+            is_subsequence(final(v)@, old(v)@);
 }
